@@ -33,6 +33,7 @@ func MakeChan[T any](n ...int) *Chan[T] {
 		ch.c.cap = n[0]
 	}
 	ch.c.obj = newObj("chan")
+	ch.c.obj.State = ch.c.state
 	return ch
 }
 
